@@ -4,7 +4,7 @@
    (mutagen/id3/_file.py) does with the rendered frame data:
 
         needed = len(framedata) + 10
-        fileobj.seek(0, 2); trailing_size = fileobj.tell() - start
+        fileobj.seek(0, 2); trailing_size = max(0, fileobj.tell() - start - available)
         info = PaddingInfo(available - needed, trailing_size)
         new_padding = info._get_padding(pad_func)
         if new_padding < 0: raise error("invalid padding")
@@ -26,6 +26,9 @@ Definition ID3_MAGIC : list Z := [73; 68; 51].           (* b"ID3" *)
 Definition cb_default : Z -> Z -> Z := get_default_padding.
 Definition cb_keep (padding size : Z) : Z := Z.max padding 0.
 Definition cb_const (c : Z) (padding size : Z) : Z := c.
+
+(* the data following the tag; the old tag itself doesn't count *)
+Definition trailing_size (file_size start available : Z) : Z := Z.max 0 (file_size - start - available).
 
 (* PaddingInfo handed to the callback: (available - needed, trailing_size) *)
 Definition pad_info (framedata : list Z) (available trailing : Z) : Z * Z :=
@@ -55,4 +58,4 @@ Definition id3_tag_extent (t : list Z) : option Z :=
 Definition id3_tag_exact (t : list Z) : bool :=
   match id3_tag_extent t with Some n => n =? zlen t | None => false end.
 
-(* EXTRACT: Fam_carrier.cb_default Fam_carrier.cb_keep Fam_carrier.cb_const Fam_carrier.pad_info Fam_carrier.id3_prepare Fam_carrier.id3_tag_extent Fam_carrier.id3_tag_exact *)
+(* EXTRACT: Fam_carrier.cb_default Fam_carrier.cb_keep Fam_carrier.cb_const Fam_carrier.trailing_size Fam_carrier.pad_info Fam_carrier.id3_prepare Fam_carrier.id3_tag_extent Fam_carrier.id3_tag_exact *)
